@@ -216,7 +216,9 @@ func (i *Interface) updateCache(r record.Record, write bool, remove bool, ttl in
 	// 1. The record is being written.
 	// 2. Write delaying is active.
 	// 3. Write delaying is active for the database of this record.
-	if write && r.DatabaseName() == i.options.DelayCachedWrites {
+	// 4. The interface has all permissions: a delayed write is stored later
+	//    without a permission check against what is stored by then.
+	if write && r.DatabaseName() == i.options.DelayCachedWrites && i.options.HasAllPermissions() {
 		i.writeCacheLock.Lock()
 		defer i.writeCacheLock.Unlock()
 		i.writeCache[r.Key()] = r
